@@ -34,7 +34,7 @@ class C10(PropBase):
             "(method, id class, model state, outcome) cells the run visited")
     ASSUMPTIONS = ["deep copies of a session behave like the session (pending bytes are read from a copy before and after "
                    "every call)", "kind-mismatched responses to an outstanding id may be accepted or refused (not stated)"]
-    RUNS = {"quick": 3200, "thorough": 100000}
+    RUNS = {"quick": 24000, "thorough": 300000}
     STEPS = {"quick": 60, "thorough": 120}
     REQUIRED_CELLS = tuple("%s/%s/%s" % (m, c, s) for m in FINAL + NONFINAL for c in ID_CLASSES for s in ("BI", "OP", "CL")
                            if not (s == "CL" and c == "outstanding")) + \
